@@ -744,6 +744,9 @@ func (s *Service) ClientClose(client *ClientService) {
 			// remove the external c2 listeners and endpoints this client started
 			s.Teamserver.ListenerServiceExc2Remove(client)
 
+			// nobody is going to answer the agent requests that were handed to this client
+			client.responsesAbort()
+
 			// close client connection
 			if s.clients[i].Conn != nil {
 				err := s.clients[i].Conn.Close()
